@@ -38,7 +38,7 @@ def run(env, tier, seed, broken=None):
     for bad in ['1 +;', '@;', 'nope;', '"open', '1/0;', '%s g(n) { %s (n > 50) { %s nope; } %s g(n + 1); } g(0);' % (FUN, IF, RETURN, RETURN)]:
         for k in (99, 100, 101, 130, 300):
             sessions.append([bad] * k + ['%s (2;' % PRINT, '%s 1+1;' % PRINT, bad, '%s f() { %s 7; } f();' % (FUN, RETURN), '1+2;'])
-    sessions.append(['%s d(n) { %s (n == 0) { %s nope; } %s d(n - 1); } d(400);' % (FUN, IF, RETURN, RETURN)] * 60 + ['%s g() { %s 7; } g();' % (FUN, RETURN)])
+    sessions.append(['%s d(n) { %s (n == 0) { %s nope; } %s d(n - 1); } d(2000);' % (FUN, IF, RETURN, RETURN)] * 60 + ['%s g() { %s 7; } g();' % (FUN, RETURN)])
     for s in sessions:
         cases.append({'id': 'r%d' % n, 'mode': 'repl', 'src': '\n'.join(s) + rng.choice(['\n', '\n', '', '\r\n']), 'lines': s}); n += 1
     mism, ri, rm = diff_runs(env, cases, need_oracle=False)
